@@ -222,6 +222,11 @@ func TestC20Witness(t *testing.T) {
 			{"ALTER TABLE t AUTO_INCREMENT = 2", "ok", nil},
 			{"INSERT INTO t (v) VALUES (3)", "ok", nil},
 		}},
+		{idExhaustedDup, "at the end of TINYINT a non-unique AUTO_INCREMENT column gets 127 a second time instead of an error", []step{
+			{"CREATE TABLE t (id TINYINT NOT NULL AUTO_INCREMENT, v INT, KEY (id))", "ok", nil},
+			{"INSERT INTO t VALUES (127, 1)", "ok", nil},
+			{"INSERT INTO t (v) VALUES (2)", "error", nil},
+		}},
 		{idOkFirstRow, "OkResult.InsertID is the explicit id of the first row instead of the first generated id", []step{
 			{"CREATE TABLE t (id INT NOT NULL AUTO_INCREMENT PRIMARY KEY, v INT)", "ok", nil},
 			{"INSERT INTO t VALUES (5, 1), (NULL, 2), (NULL, 3)", "insertid:6", nil},
@@ -251,6 +256,10 @@ func TestC20Witness(t *testing.T) {
 				t.Fatalf("%s: %s crashed: %s\n%s", c.id, sp.sql, r, r.Stack)
 			}
 			switch {
+			case sp.expect == "error":
+				if r.Err == nil {
+					bad = sp.sql + ": expected an error, got " + r.String()
+				}
 			case r.Err != nil:
 				bad = sp.sql + ": unexpected error " + r.Err.Error()
 			case sp.expect == "rows":
